@@ -705,8 +705,16 @@ fn main() {
         let disc = parse_sched("sched disc lib=stale lock=1 temp=0 n=1 broken=0 K=0 steps=0:check,0:lock,0:poll").unwrap();
         let r = run_controlled(&root.join("disc"), &disc, &src);
         let _ = fs::remove_dir_all(root.join("disc"));
-        variant = if r.contains("points=lock;poll;check ") { "recheck" } else { "orig" };
-        if variant == "recheck" {
+        // neither answer: the code implements something else — compare it with the protocol of
+        // the current tree (recheck); the disagreements are then the report
+        variant = if r.contains("points=lock;poll;check ") {
+            "recheck"
+        } else if r.contains("points=lock;poll;exit ") {
+            "orig"
+        } else {
+            "unknown"
+        };
+        if variant != "orig" {
             sched_file = sched_recheck_file.clone();
         }
     }
@@ -727,7 +735,8 @@ fn main() {
             for line in corpus.lines() {
                 if let Some(s) = parse_sched(line) {
                     // corpus schedules are written for one protocol variant
-                    if kv(line).get("variant").map(|v| v == variant).unwrap_or(true) {
+                    let want = if variant == "orig" { "orig" } else { "recheck" };
+                    if kv(line).get("variant").map(|v| v == want).unwrap_or(true) {
                         scheds.push(s);
                     }
                 } else if let Some(fr) = parse_free(line) {
